@@ -220,8 +220,16 @@ def host_cursor(R, P):
     except Limit as ex:
         R.broken(str(ex))
         return
+    targets = set()
+    for b_ in f.blocks.values():
+        for el in b_.elems:
+            for x in f.walk(el):
+                if x["k"] == "bin" and x["op"] == "=":
+                    targets.add(id(f.d(x["a"][0])))
     for eid, kind, n in sel:
         nst, bad = 0, None
+        if id(n) in targets:
+            continue  # a plain store (a result written through an out-parameter): the rule is about what is read
         for st in states.get(eid, []):
             d = st.env.get("v:userinfo_delim")
             if d is None or not entails(st, Poly.const(1) - d):
@@ -230,8 +238,6 @@ def host_cursor(R, P):
             for (D, sz, mode) in addr_size(num, s2, kind, n):
                 if D is None or mode == "w":
                     continue  # the rule is about what is read
-                if any(a_ in s2.extent for a_ in (D - d).atoms()):
-                    continue  # an address in another object than the text being parsed (a result field, a local)
                 nst += 1
                 if not entails(s2, d + 1 - D):
                     bad = "address %r is not after the '@' at %r" % (D, d)
